@@ -2,6 +2,7 @@
 package dumparea
 
 import (
+	"time"
 	"bufio"
 	"compress/gzip"
 	"crypto/sha256"
@@ -34,6 +35,8 @@ type Config struct {
 	Codec  string     `json:"codec"`
 	// ZeroIDs: the first node and the first relationship of the first graph have database id 0 (Neo4j numbers from 0)
 	ZeroIDs bool `json:"zero_ids,omitempty"`
+	// Scrub "full": every run of the scenario scrubs with the same salt (the manifest then carries action counts)
+	Scrub string `json:"scrub,omitempty"`
 }
 
 var nodeOffsets = []int{5, 9, 14, 20, 21, 33, 47, 48}
@@ -149,6 +152,9 @@ type FragProj struct {
 type DirProj struct {
 	HasManifest   bool        `json:"has_manifest"`
 	ManifestValid bool        `json:"manifest_valid"`
+	// ManifestDigest: hash of the manifest with its generation time blanked - everything else in it is a function of
+	// the source and the options
+	ManifestDigest string `json:"manifest_digest"`
 	Graphs        []GraphProj `json:"graphs"`
 	HasCkpt       bool        `json:"has_ckpt"`
 	CkptParsed    bool        `json:"ckpt_parsed"`
@@ -230,6 +236,12 @@ func Project(dir string) DirProj {
 		var m retriever.Manifest
 		if json.Unmarshal(raw, &m) == nil {
 			p.ManifestValid = true
+			m2 := m
+			m2.GeneratedAt = time.Time{}
+			if canon, err := json.Marshal(m2); err == nil {
+				sum := sha256.Sum256(canon)
+				p.ManifestDigest = hex.EncodeToString(sum[:8])
+			}
 			for _, g := range m.Graphs {
 				gp := GraphProj{Name: g.Name, NodeCount: int(g.NodeCount), EdgeCount: int(g.EdgeCount), Files: []FileProj{}}
 				for _, f := range g.Files {
